@@ -142,7 +142,7 @@ func runC16(t *testing.T, res *common.Result, rng *common.Rng) {
 	res.Rule = "enumeration of all 32 combinations of {--tls_cert, --tls_key, --client_cert_verify, --client_ca, --password} set/unset on the real server binary, once with the REST listener enabled and once without it: " +
 		"start-up classification (refuses / serves) and, when it serves, connection probes on both listeners (plaintext, TLS without client certificate, TLS with the test client certificate); " +
 		"for serving configurations with a password (quick: `pw` and `cert+key+pw`; thorough: all a client can connect to) the credential matrix: " +
-		"shapes {missing, empty, wrong, prefix, suffix, padded with white space, wrong metadata key / wrong scheme, bearer, basic without user, lowercase scheme, malformed base64, extra colons, shifted colon, raw, gateway metadata header, correct, correct with empty user} " +
+		"shapes {missing, empty, wrong, prefix, suffix, padded with white space, credentials without a scheme, wrong metadata key / wrong scheme, bearer, basic without user, lowercase scheme, malformed base64, extra colons, shifted colon, raw, gateway metadata header, correct, correct with empty user} " +
 		"x {Lock, TryLock, Unlock, Renew} over gRPC and {POST /session, DELETE /session, POST /v1/lock, /v1/unlock, /v1/renew} over REST, with `ldlm-lock list` compared before/after every rejected request. " +
 		"A case is (configuration, start-up class) or (configuration, listener, probe) or (configuration, transport, method/route, shape); non-trivial unless it is the start-up class of the empty configuration"
 	k := &c16run{t: t, res: res, rng: rng}
@@ -511,6 +511,7 @@ func restShapes() []restShape {
 		{"padded", sp(basic("user:" + pw + " ")), nil, false},
 		{"padded", sp(basic("user: " + pw)), nil, false},
 		{"padded", sp(basic("user:" + pw + "\r\n")), nil, false},
+		{"no-scheme", sp(base64.StdEncoding.EncodeToString([]byte("user:" + pw))), nil, false}, // the right credentials without "Basic "
 		{"raw-password", sp(pw), nil, false},
 		{"gateway-metadata-header", nil, map[string]string{"Grpc-Metadata-Authorization": pw}, false},
 		{"correct", sp(basic("user:" + pw)), nil, true},
